@@ -107,6 +107,7 @@ type Exec struct {
 	notes    []noteRec
 	pools    map[string][]Value
 	known    map[*Term]uint64
+	maxDepthSeen int
 	fixed    []TapeEntry // concrete mode: input values
 	fixedPos int
 	model    map[string]uint64 // an assignment of the input variables satisfying the path condition (nil = none known)
@@ -577,6 +578,9 @@ func (ex *Exec) callFunction(caller *Frame, fn *ssa.Function, args []Value, env 
 	if caller != nil {
 		fr.depth = caller.depth + 1
 	}
+	if fr.depth > ex.maxDepthSeen {
+		ex.maxDepthSeen = fr.depth
+	}
 	if fr.depth > ex.maxDepth {
 		ex.event("recursion", fmt.Sprintf("call depth %d exceeded in %s", ex.maxDepth, fn))
 		ex.abort("unwind", "recursion depth exceeded in "+fn.String())
@@ -905,6 +909,10 @@ func isSigned(t types.Type) bool {
 }
 
 func (ex *Exec) noteAlloc(fr *Frame, cells int) {
+	if ex.job.AllocLimit > 0 && cells > ex.job.AllocLimit && !ex.inInit && !ex.w.isHarnessFunc(fr.fn) {
+		ex.path.Asserts++
+		ex.asmViolation("alloc-bounded", fmt.Sprintf("allocation of %d cells in %s exceeds the declared block maximum", cells, fr.fn), nil)
+	}
 	if cells > ex.path.MaxAlloc {
 		ex.path.MaxAlloc = cells
 		ex.path.MaxAllocSite = fr.fn.String()
